@@ -227,6 +227,7 @@ public:
   inline app_pointer& operator=(app_pointer&& other)
   {
     if (this != &other) {
+      unregister();
       move_obj(std::forward<app_pointer>(other));
     }
     return *this;
